@@ -21,6 +21,20 @@
 (*                          lookbacks = {[id, size, L, S]}.  Enabled iff   *)
 (*                          the answers violate no clause (Failures = {}). *)
 (*                                                                         *)
+(*   SubQuery(now, late, subshards)  shards of SUBRINGS of the current      *)
+(*                          content (a shard of a shard, a shard of a      *)
+(*                          look-back subring, of a subring selected by    *)
+(*                          instance state, of an independently built ring *)
+(*                          holding only those members): subshards =       *)
+(*                          {[mem, id, size, S]}, mem = the members of the *)
+(*                          subring.  A subring is a ring content of its   *)
+(*                          own (the current view restricted to mem), so   *)
+(*                          every clause applies to it; answers are keyed  *)
+(*                          by (mem, id, size) - not by how the subring    *)
+(*                          was obtained - and two subrings of one version *)
+(*                          that are one instance apart are two rings one  *)
+(*                          instance apart (Consistency).                  *)
+(*                                                                         *)
 (* "Depends on nothing but the ring content": the answers recorded for a   *)
 (* version are keyed by (id, size) only - not by the client, not by the    *)
 (* time of the query - so Deterministic demands the same plain shard from  *)
@@ -43,19 +57,20 @@ VARIABLES kind,      \* "inst" | "part"
           lbs,       \* look-back answers given on the current version: set of [id, size, L, now, late, S]
           prev,      \* previous view and the answers given on it: [view, ans] (view.mem = {} initially)
           ended,     \* ended versions: sequence of [to, view, ans]
-          clock      \* time of the latest query
+          clock,     \* time of the latest query
+          subs       \* answers given on subrings of the current version: set of [mem, id, size, S]
 
-hvars == <<kind, za, cur, stamp, ans, lbs, prev, ended, clock>>
+hvars == <<kind, za, cur, stamp, ans, lbs, prev, ended, clock, subs>>
 
 EmptyView == [mem |-> {}, zone |-> <<>>, ro |-> <<>>, st |-> <<>>]
 
 HInit == /\ kind = "inst" /\ za = FALSE /\ cur = EmptyView /\ stamp = -1
          /\ ans = {} /\ lbs = {} /\ prev = [view |-> EmptyView, ans |-> {}]
-         /\ ended = <<>> /\ clock = 0
+         /\ ended = <<>> /\ clock = 0 /\ subs = {}
 
 Reset(k, z) ==
     /\ kind' = k /\ za' = z /\ cur' = EmptyView /\ stamp' = -1 /\ ans' = {} /\ lbs' = {}
-    /\ prev' = [view |-> EmptyView, ans |-> {}] /\ ended' = <<>> /\ clock' = 0
+    /\ prev' = [view |-> EmptyView, ans |-> {}] /\ ended' = <<>> /\ clock' = 0 /\ subs' = {}
 
 (* one change per second, never before a query that already happened *)
 ChangeWellTimed(t) == t > stamp /\ t >= clock
@@ -65,7 +80,7 @@ RingChange(t, view) ==
     /\ ended' = IF cur.mem = {} /\ stamp = -1 THEN ended
                 ELSE Append(ended, [to |-> t, view |-> cur, ans |-> ans])
     /\ prev' = [view |-> cur, ans |-> ans]
-    /\ cur' = view /\ stamp' = t /\ ans' = {} /\ lbs' = {}
+    /\ cur' = view /\ stamp' = t /\ ans' = {} /\ lbs' = {} /\ subs' = {}
     /\ UNCHANGED <<kind, za, clock>>
 
 QueryWellTimed(now, late) == /\ now >= clock
@@ -112,10 +127,46 @@ Record(now, late, shards, lookbacks) ==
     /\ ans' = ans \cup shards
     /\ lbs' = lbs \cup {[id |-> q.id, size |-> q.size, L |-> q.L, now |-> now, late |-> late, S |-> q.S] : q \in lookbacks}
     /\ clock' = now
-    /\ UNCHANGED <<kind, za, cur, stamp, prev, ended>>
+    /\ UNCHANGED <<kind, za, cur, stamp, prev, ended, subs>>
 
 Query(now, late, shards, lookbacks) ==
     /\ QueryWellTimed(now, late)
     /\ Failures(now, late, shards, lookbacks) = {}
     /\ Record(now, late, shards, lookbacks)
+
+(***************************************************************************)
+(* Subrings of the current version.                                        *)
+(***************************************************************************)
+Restrict(V, m) == [mem |-> V.mem \cap m, zone |-> V.zone, ro |-> V.ro, st |-> V.st]
+
+SubSame(a, b) == a.mem = b.mem /\ a.id = b.id /\ a.size = b.size
+SubSizeOK(b)  == IF kind = "inst" THEN SizeOK(b.S, Restrict(cur, b.mem), za, b.size)
+                 ELSE PSizeOK(b.S, Restrict(cur, b.mem), b.size)
+SubApart(a, b) == a.id = b.id /\ a.size = b.size /\ a.mem # b.mem
+                  /\ Apart(Restrict(cur, a.mem), Restrict(cur, b.mem))
+
+SubFailures(subshards) ==
+    LET ok   == {b \in subshards : b.mem \subseteq cur.mem}
+        \* the whole ring is a subring of itself: its plain shards are answers for mem = cur.mem
+        full == {[mem |-> cur.mem, id |-> a.id, size |-> a.size, S |-> a.S] : a \in ans}
+        all  == subs \cup ok \cup full
+    IN {F("SubMembers", a, {}) : a \in subshards \ ok}
+    \cup {F("SubSizeFormula", a, {}) : a \in {b \in ok : ~SubSizeOK(b)}}
+    \cup {F("SubNoReadOnly", a, {}) : a \in {b \in ok : kind = "inst" /\ ~NoReadOnly(b.S, Restrict(cur, b.mem))}}
+    \cup {F("SubDeterministic", a, {b \in all : SubSame(a, b) /\ a.S # b.S}) :
+            a \in {c \in ok : \E b \in all : SubSame(c, b) /\ c.S # b.S}}
+    \cup {F("SubMonotone", a, {b \in all : a.mem = b.mem /\ MonoBad(a, b)}) :
+            a \in {c \in ok : \E b \in all : c.mem = b.mem /\ MonoBad(c, b)}}
+    \cup {F("SubConsistency", a, {b \in all : SubApart(a, b) /\ ~ConsistencyOK(a.S, b.S)}) :
+            a \in {c \in ok : \E b \in all : SubApart(c, b) /\ ~ConsistencyOK(c.S, b.S)}}
+
+SubRecord(now, subshards) ==
+    /\ subs' = subs \cup subshards
+    /\ clock' = now
+    /\ UNCHANGED <<kind, za, cur, stamp, ans, lbs, prev, ended>>
+
+SubQuery(now, late, subshards) ==
+    /\ QueryWellTimed(now, late)
+    /\ SubFailures(subshards) = {}
+    /\ SubRecord(now, subshards)
 =============================================================================
